@@ -268,3 +268,7 @@ Proof.
 Qed.
 Theorem source_handle_iter d name : gen_meas___iter__ d name = filter (fun p => str_eqb (p_meas p) name) (db_rows d).
 Proof. unfold gen_meas___iter__. cbv zeta. apply (yield_loop (fun p => str_eqb (p_meas p) name) (db_rows d) []). Qed.
+
+(* ---------- all(sorted) ---------- *)
+Theorem source_db_all d srt : gen_db_all (db_prelude d) srt = if srt then sort_points (db_rows d) else db_rows d.
+Proof. unfold gen_db_all. rewrite prelude_rows. destruct srt; reflexivity. Qed.
